@@ -148,6 +148,7 @@ type parserModel struct {
 	order   []string
 	notes   []string
 	undec   []string
+	inlined map[string]bool // extracted functions without a documented production that were spliced into their callers
 }
 
 func ntKey(fn string, ctx kindset) string { return fmt.Sprintf("%s|%d", fn, uint32(ctx)) }
@@ -183,7 +184,7 @@ func (st pstate) clone() pstate {
 }
 
 func buildParserModel(p *Prog) (*parserModel, string) {
-	m := &parserModel{p: p, errFns: map[*ssa.Function]bool{}, parseFn: map[*ssa.Function]bool{}, nts: map[string]*gnfa{}}
+	m := &parserModel{p: p, errFns: map[*ssa.Function]bool{}, parseFn: map[*ssa.Function]bool{}, nts: map[string]*gnfa{}, inlined: map[string]bool{}}
 	m.tk = p.tokenKinds()
 	if m.tk == nil {
 		return nil, "type TokenKind and its constants"
@@ -210,8 +211,17 @@ func buildParserModel(p *Prog) (*parserModel, string) {
 	return m, ""
 }
 
+// parseFnName: the name a parse function is documented under (its own, or the recorded one when it was renamed).
+func parseFnName(fn *ssa.Function) string {
+	n := FuncName(fn)
+	if i := strings.LastIndex(n, "."); i >= 0 {
+		return n[i+1:]
+	}
+	return n
+}
+
 func (m *parserModel) extract(fn *ssa.Function, ctx kindset) string {
-	key := ntKey(fn.Name(), ctx)
+	key := ntKey(parseFnName(fn), ctx)
 	if _, ok := m.nts[key]; ok {
 		return key
 	}
@@ -258,9 +268,43 @@ func (m *parserModel) extract(fn *ssa.Function, ctx kindset) string {
 					return entry // the path reports a syntax error: nothing is accepted along it
 				case callee != nil && m.parseFn[callee]:
 					sub := m.extract(callee, st.s)
-					_ = sub
+					if _, documented := refGrammar[parseFnName(callee)]; !documented && m.nts[sub] != a {
+						// a parse function that is not a non-terminal of the documented grammar (a production split into
+						// helper methods): its automaton is spliced in, the language of the caller is what is compared
+						sa := m.nts[sub]
+						mp := map[int]int{}
+						get := func(i int) int {
+							if v, ok := mp[i]; ok {
+								return v
+							}
+							v := a.node()
+							mp[i] = v
+							if ps, ok := sa.pos[i]; ok {
+								a.pos[v] = ps
+							}
+							return v
+						}
+						for _, e := range sa.edges {
+							if e.eps {
+								a.eps(get(e.from), get(e.to))
+							} else {
+								a.sym(get(e.from), get(e.to), e.s)
+							}
+						}
+						a.eps(cur, get(sa.start))
+						n := a.node()
+						a.pos[n] = x.Pos()
+						for acc := range sa.accepts {
+							a.eps(get(acc), n)
+						}
+						m.inlined[sub] = true
+						cur = n
+						consume()
+						st.results[x] = true
+						break
+					}
 					n := a.node()
-					a.sym(cur, n, gsym{nt: callee.Name(), kinds: st.s})
+					a.sym(cur, n, gsym{nt: parseFnName(callee), kinds: st.s})
 					a.pos[n] = x.Pos()
 					cur = n
 					consume()
@@ -782,6 +826,9 @@ func runC04Grammar(c *Ctx) {
 		var ctx kindset
 		fmt.Sscanf(key[strings.Index(key, "|")+1:], "%d", &ctx)
 		construct := fmt.Sprintf("(*ExprParser).%s|production (look-ahead %s)", fnName, m.tk.str(ctx))
+		if m.inlined[key] {
+			continue // compared as part of the productions it was spliced into
+		}
 		fn := p.Method("ExprParser", fnName)
 		if _, ok := refGrammar[fnName]; !ok {
 			c.bad(construct, fn.Pos(), "a parse function without a documented production takes part in parsing")
@@ -1074,37 +1121,40 @@ func runC04Tree(c *Ctx) {
 	if fn := p.Method("ExprParser", "parseIdent"); fn != nil {
 		for kw, node := range map[string]string{"null": "NullNode", "true": "BoolNode", "false": "BoolNode"} {
 			okKw := false
-			eachInstr(fn, func(b *ssa.BasicBlock, _ int, in ssa.Instruction) {
-				al, ok := in.(*ssa.Alloc)
-				if !ok || !strings.HasSuffix(typeStr(al.Type()), node) {
-					return
-				}
-				for ifi, outcome := range controllingConds(b) {
-					bo, ok := ifi.Cond.(*ssa.BinOp)
-					if !ok || bo.Op != token.EQL || !outcome {
-						continue
+			// in parseIdent or in a function of the module it hands the identifier to
+			for _, kf := range p.withHelpers(fn, 1) {
+				eachInstr(kf, func(b *ssa.BasicBlock, _ int, in ssa.Instruction) {
+					al, ok := in.(*ssa.Alloc)
+					if !ok || !strings.HasSuffix(typeStr(al.Type()), node) {
+						return
 					}
-					if s, ok := constString(bo.Y); ok && s == kw {
-						if node == "BoolNode" {
-							for _, ref := range *al.Referrers() {
-								if fa, ok := ref.(*ssa.FieldAddr); ok {
-									if n, _ := fieldName(al.Type().(*types.Pointer).Elem(), fa.Field); strings.HasSuffix(n, ".Value") {
-										for _, r2 := range *fa.Referrers() {
-											if st, ok := r2.(*ssa.Store); ok {
-												if k, ok := st.Val.(*ssa.Const); ok && k.Value != nil && k.Value.String() == kw {
-													okKw = true
+					for ifi, outcome := range controllingConds(b) {
+						bo, ok := ifi.Cond.(*ssa.BinOp)
+						if !ok || bo.Op != token.EQL || !outcome {
+							continue
+						}
+						if s, ok := constString(bo.Y); ok && s == kw {
+							if node == "BoolNode" {
+								for _, ref := range *al.Referrers() {
+									if fa, ok := ref.(*ssa.FieldAddr); ok {
+										if n, _ := fieldName(al.Type().(*types.Pointer).Elem(), fa.Field); strings.HasSuffix(n, ".Value") {
+											for _, r2 := range *fa.Referrers() {
+												if st, ok := r2.(*ssa.Store); ok {
+													if k, ok := st.Val.(*ssa.Const); ok && k.Value != nil && k.Value.String() == kw {
+														okKw = true
+													}
 												}
 											}
 										}
 									}
 								}
+							} else {
+								okKw = true
 							}
-						} else {
-							okKw = true
 						}
 					}
-				}
-			})
+				})
+			}
 			construct := "(*ExprParser).parseIdent|keyword " + kw
 			if okKw {
 				c.ok(construct, fn.Pos(), kw+" builds "+node)
